@@ -189,14 +189,14 @@ Definition si_prepared (cid : string) (det : node) : canon_alg * node :=
   match si_prep cid det with Ok x => x | Err _ => (CNull, Text "") end.
 
 Definition cr := cr_normalise.
-Definition crt (s : string) : string := cr_normalise s ++ "".       (* chardata: text_of_kids [XText s] *)
+Definition chd (s : string) : string := cr_normalise s ++ "".       (* chardata: text_of_kids [XText s] *)
 Definition sinfo_rec (sm cid uri hid dv : string) : signed_info :=
   {| si_c14n_alg := cr cid; si_sig_alg := cr sm;
-     si_refs := [ {| ref_uri := cr uri; ref_digest_value := crt dv; ref_digest_alg := cr hid;
+     si_refs := [ {| ref_uri := cr uri; ref_digest_value := chd dv; ref_digest_alg := cr hid;
                      ref_transforms := [ {| tr_alg := enveloped_signature_id; tr_prefix_list := None |};
                                          {| tr_alg := cr cid; tr_prefix_list := None |} ] |} ] |}.
 Definition sig_rec (sm cid uri hid dv sv cert64 : string) : signature :=
-  {| sg_signed_info := Some (sinfo_rec sm cid uri hid dv); sg_value := Some (crt sv); sg_keyinfo := Some [crt cert64] |}.
+  {| sg_signed_info := Some (sinfo_rec sm cid uri hid dv); sg_value := Some (chd sv); sg_keyinfo := Some [chd cert64] |}.
 Definition found (L : list attr) (sm cid uri hid dv sv cert64 : string) : found_sig :=
   let det := si_det L (si_el sm cid uri hid dv) in
   {| fs_path := [1]; fs_sig := sig_rec sm cid uri hid dv sv cert64; fs_si_alg := fst (si_prepared cid det); fs_si_detached := det |}.
@@ -216,3 +216,152 @@ Proof.
   destruct HL as [<-|[<-|[<-|[]]]]; destruct HC as [<-|[<-|[<-|[<-|[<-|[<-|[]]]]]]];
     vm_compute in HR |- *; rewrite HR; reflexivity.
 Qed.
+
+(* ---- the other computations on the signature element, per declaration set and canonicaliser identifier ---- *)
+Lemma ctx_of_ok L : In L decl_sets -> sub_context default_ctx L = Ok (ctx_of L).
+Proof. intros HL. cbn [decl_sets In] in HL. destruct HL as [<-|[<-|[<-|[]]]]; vm_compute; reflexivity. Qed.
+
+Lemma si_det_ok L sm cid uri hid dv : In L decl_sets ->
+  detach_sorted (("ds", ds_ns) :: ("ds", ds_ns) :: ctx_of L) (si_el sm cid uri hid dv) = Ok (si_det L (si_el sm cid uri hid dv)).
+Proof. intros HL. cbn [decl_sets In] in HL. destruct HL as [<-|[<-|[<-|[]]]]; vm_compute; reflexivity. Qed.
+
+Lemma si_prep_ok L sm cid uri hid dv : In L decl_sets -> In cid c14n_ids ->
+  let det := si_det L (si_el sm cid uri hid dv) in
+  si_prep cid det = Ok (si_prepared cid det).
+Proof.
+  intros HL HC. cbn [decl_sets c14n_ids In] in HL, HC.
+  destruct HL as [<-|[<-|[<-|[]]]]; destruct HC as [<-|[<-|[<-|[<-|[<-|[<-|[]]]]]]]; vm_compute; reflexivity.
+Qed.
+
+(* getCanonicalSignedInfo finds the replaced SignedInfo again *)
+Lemma find_replaced_signed_info L sm cid uri hid dv sv cert64 : In L decl_sets -> In cid c14n_ids ->
+  exists x lim,
+    find_one_child (ctx_of L) (sig_tree (snd (si_prepared cid (si_det L (si_el sm cid uri hid dv)))) sv cert64) ds_ns "SignedInfo" traversal_limit
+    = Ok (Some x, lim).
+Proof.
+  intros HL HC. cbn [decl_sets c14n_ids In] in HL, HC.
+  destruct HL as [<-|[<-|[<-|[]]]]; destruct HC as [<-|[<-|[<-|[<-|[<-|[<-|[]]]]]]]; eexists; eexists; vm_compute; reflexivity.
+Qed.
+
+(* the SignedInfo re-read from the verified bytes: same record as the one read in findSignature *)
+Lemma unmarshal_prepared_signed_info L sm cid uri hid dv : In L decl_sets -> In cid c14n_ids ->
+  unmarshal_signed_info (snd (si_prepared cid (si_det L (si_el sm cid uri hid dv)))) = Ok (sinfo_rec sm cid uri hid dv).
+Proof.
+  intros HL HC. cbn [decl_sets c14n_ids In] in HL, HC.
+  destruct HL as [<-|[<-|[<-|[]]]]; destruct HC as [<-|[<-|[<-|[<-|[<-|[<-|[]]]]]]]; vm_compute; reflexivity.
+Qed.
+
+(* the canonicaliser goxmldsig's verifier applies to the referenced element for a Transform identifier (no InclusiveNamespaces child) *)
+Definition alg_of_id (id : string) : canon_alg :=
+  if id =?s alg_exc then CExc "" false else if id =?s alg_exc_wc then CExc "" true
+  else if id =?s alg_c11 then C11 false else if id =?s alg_c11_wc then C11 true
+  else if id =?s alg_rec then CRec false else if id =?s alg_rec_wc then CRec true else CNull.
+
+Lemma cr_c14n_id cid : In cid c14n_ids -> cr cid = cid.
+Proof. intros HC. cbn [c14n_ids In] in HC. destruct HC as [<-|[<-|[<-|[<-|[<-|[<-|[]]]]]]]; vm_compute; reflexivity. Qed.
+
+Lemma transforms_enveloped_then cid sp t a c0 sg rest : In cid c14n_ids -> is_elem sg = true ->
+  apply_transforms [ {| tr_alg := enveloped_signature_id; tr_prefix_list := None |}; {| tr_alg := cid; tr_prefix_list := None |} ]
+                   [1] (Elem sp t a (c0 :: sg :: rest)) None
+  = Ok (Elem sp t a (c0 :: rest), Some (alg_of_id cid)).
+Proof.
+  intros HC Hs. destruct sg as [ssp stg sa sk| | | |]; try discriminate.
+  cbn [c14n_ids In] in HC. destruct HC as [<-|[<-|[<-|[<-|[<-|[<-|[]]]]]]]; reflexivity.
+Qed.
+
+(* ================================================================ 4. strings: base64 texts and identifiers survive the reader *)
+Lemma b64_not_cr : forall c, implb (b64_out_char c) (negb (Ascii.eqb c "013"%char)) = true.
+Proof. bytes. Qed.
+Lemma b64_not_space : forall c, implb (b64_out_char c) (negb (is_re_space c)) = true.
+Proof. bytes. Qed.
+
+Lemma str_all_impl (P Q : ascii -> bool) : (forall c, implb (P c) (Q c) = true) -> forall s, str_all P s = true -> str_all Q s = true.
+Proof.
+  intros HI. induction s as [|c r IH]; [reflexivity|]. cbn [str_all]. intros H. apply andb_prop in H as [H1 H2].
+  specialize (HI c). rewrite H1 in HI. cbn in HI. rewrite HI, (IH H2). reflexivity.
+Qed.
+
+Lemma cr_normalise_id s : str_all (fun c => negb (Ascii.eqb c "013"%char)) s = true -> cr_normalise s = s.
+Proof.
+  induction s as [|c r IH]; [reflexivity|]. cbn [str_all cr_normalise]. intros H. apply andb_prop in H as [H1 H2].
+  apply Bool.negb_true_iff in H1. rewrite H1, (IH H2). reflexivity.
+Qed.
+Lemma strip_space_id s : str_all (fun c => negb (is_re_space c)) s = true -> strip_space s = s.
+Proof.
+  induction s as [|c r IH]; [reflexivity|]. cbn [str_all strip_space]. intros H. apply andb_prop in H as [H1 H2].
+  apply Bool.negb_true_iff in H1. rewrite H1, (IH H2). reflexivity.
+Qed.
+Lemma cr_base64 x : cr_normalise (base64_encode x) = base64_encode x.
+Proof. apply cr_normalise_id. apply (str_all_impl _ _ b64_not_cr). apply base64_charset. Qed.
+Lemma strip_space_base64 x : strip_space (base64_encode x) = base64_encode x.
+Proof. apply strip_space_id. apply (str_all_impl _ _ b64_not_space). apply base64_charset. Qed.
+Lemma chd_base64 x : chd (base64_encode x) = base64_encode x.
+Proof. unfold chd. rewrite cr_base64. apply app_nil_r_s. Qed.
+Lemma base64_nonempty x : x <> "" -> base64_encode x <> "".
+Proof.
+  intros Hx E. apply Hx. pose proof (base64_decode_encode x) as HD. rewrite E in HD. vm_compute in HD. inversion HD. reflexivity.
+Qed.
+Lemma cr_hash s : cr_normalise ("#" ++ s)%string = ("#" ++ cr_normalise s)%string.
+Proof. reflexivity. Qed.
+
+Lemma sig_method_facts pk h sm : id_by_method pk h signature_method_ids = Some sm -> cr sm = sm /\ mem_str sm known_sig_methods = true.
+Proof. destruct pk, h; cbn; intros H; inversion H; subst; split; vm_compute; reflexivity. Qed.
+Lemma digest_id_cr h : cr (digest_id h) = digest_id h.
+Proof. destruct h; vm_compute; reflexivity. Qed.
+
+Lemma attr_eqb_eq a b : attr_eqb a b = true -> a = b.
+Proof.
+  unfold attr_eqb. intros H. apply andb_prop in H as [H H3]. apply andb_prop in H as [H1 H2].
+  apply str_eqb_eq in H1, H2, H3. destruct a, b; cbn in *; subst; reflexivity.
+Qed.
+Lemma list_attr_eqb_eq : forall l1 l2, list_eqb attr_eqb l1 l2 = true -> l1 = l2.
+Proof.
+  induction l1 as [|x r IH]; intros [|y r2] H; cbn in H; try discriminate; [reflexivity|].
+  apply andb_prop in H as [H1 H2]. apply attr_eqb_eq in H1. rewrite H1, (IH _ H2). reflexivity.
+Qed.
+
+(* ================================================================ 5. the statement *)
+Definition cr_free (s : string) : bool := cr_normalise s =?s s.
+
+(* the shape of the elements the three builders produce (as the configured canonicaliser leaves them), as far as the
+   verifier depends on it: a first child element whose subtree resolves all its prefixes and contains no ds:Signature (the
+   Issuer), any further children, the SAML name-space declarations on the root (any other attributes), a root that is
+   not itself ds:Signature, the ID the signer reads (first attribute ID without prefix) being the ID the verifier reads
+   (first attribute with key ID) and free of U+000D *)
+Definition signable (el : node) : bool :=
+  match el with
+  | Elem sp t a (c0 :: rest) =>
+      is_elem c0 &&
+      existsb (list_eqb attr_eqb (filter is_ns_decl a)) decl_sets &&
+      match sub_context default_ctx a with
+      | Ok ctx1 =>
+          match lookup_prefix ctx1 sp with
+          | Some ns => negb ((ns =?s ds_ns) && (t =?s "Signature"))
+          | None => false
+          end && quiet ctx1 c0
+      | Err _ => false
+      end &&
+      Nat.leb (count_elems c0) 990 &&
+      (id_of el =?s select_attr_value "ID" a) && cr_free (id_of el)
+  | _ => false
+  end.
+
+(* the canonicaliser the SIGNER runs (an oracle question): goxmldsig's exclusive canonicaliser with the configured prefix
+   list, or the one its identifier names *)
+Definition signer_alg (c : Build.canon) : canon_alg :=
+  match c with
+  | CanonExc incl comments => CExc (String.concat " " incl) comments
+  | CanonOther id => alg_of_id id
+  end.
+
+(* ctx.GetSignatureMethodIdentifier() *)
+Definition declared_method (cx : sign_ctx) : option string :=
+  match ctx_pk (cx_keys cx) with Some pk => id_by_method pk (cx_hash cx) signature_method_ids | None => None end.
+
+(* the SignedInfo child of the signature as findSignature detaches it: NSDetatch in the context of the message element
+   plus the Signature element's own declarations (pushed by NSTraverse and again by the handler), attributes sorted *)
+Definition si_detached (el' sg : node) : res node :=
+  do ctx1 <- sub_ctx default_ctx (attrs_of el');
+  do ctx2 <- sub_ctx ctx1 (attrs_of sg);
+  do ctx3 <- sub_ctx ctx2 (attrs_of sg);
+  match kids_of sg with si :: _ => detach_sorted ctx3 si | [] => Err (EOther "no-signedinfo") end.
